@@ -8,14 +8,14 @@ from typing import Any, Callable, Iterator
 from verif import sched
 
 
-def dfs_preemptions(run_with: Callable[[sched.Policy], sched.Scheduler], p_max: int, limit: int | None = None, part: tuple[int, int] | None = None) -> Iterator[tuple[dict[int, int], sched.Scheduler]]:
+def dfs_preemptions(run_with: Callable[[sched.Policy], sched.Scheduler], p_max: int, limit: int | None = None, part: tuple[int, int] | None = None, newest_first: bool = False) -> Iterator[tuple[dict[int, int], sched.Scheduler]]:
     """Exhaustive over all schedules with <= p_max forced switches (CHESS-style).
 
     run_with(policy) builds a fresh scenario, runs it under the policy and returns the scheduler.
     part=(i, n): only the sub-tree whose first forced switch is at a step = i (mod n) (the search split over processes).
     """
     n = 0
-    base = run_with(sched.NonPreemptive({}))
+    base = run_with(sched.NonPreemptive({}, newest_first))
     yield {}, base
     n += 1
     frontier: list[tuple[dict[int, int], sched.Scheduler]] = [({}, base)]
@@ -31,7 +31,7 @@ def dfs_preemptions(run_with: Callable[[sched.Policy], sched.Scheduler], p_max: 
                     continue
                 for k in range(cnt - 1):
                     pre2 = {**pre, step: k}
-                    sc2 = run_with(sched.NonPreemptive(dict(pre2)))
+                    sc2 = run_with(sched.NonPreemptive(dict(pre2), newest_first))
                     yield pre2, sc2
                     n += 1
                     new.append((pre2, sc2))
